@@ -9,6 +9,9 @@
 (* wall-clock times converted with the zone rules of the year.               *)
 (***************************************************************************)
 EXTENDS Integers, Sequences, FiniteSets, TLC
+\* A row is imported on its own (OAGDatabase.add commits) or as part of a batch (add without commit, commit afterwards):
+\* either way, once the call(s) returned, the flight, its instances and its instance count are in the database file
+ImportForms == {"add", "add_then_commit"}
 
 YearDays == 365
 \* ISO weekday (Monday = 1 ... Sunday = 7) of day d
